@@ -4,6 +4,7 @@ Model: FeedVerif/Model/San.lean (filter + serializer over sgmllib's callback seq
 -/
 import FeedVerif.Model.San
 import FeedVerif.Gen.RefSanitizer
+import FeedVerif.Model.Mixin
 
 namespace FeedVerif.San
 open List
@@ -295,3 +296,35 @@ example : serialize shipped (run shipped ops0 true {} [.text (s "<img src=x oner
     = s "<img src=x onerror=alert(1)>" := by decide +kernel
 
 end FeedVerif.San
+
+/-! ### stage 2 of M-mixin: what `pop()` does to the value of a text construct (title, subtitle, rights, …)
+
+`contentOutput` is the model of the post-processing chain of `XMLParserMixin.pop` (mixin.py:531-616) with the sanitizer, the
+relative-URI resolver, `looks_like_html`, base64 and the back end's reference decoding as parameters; it is tied to the real `pop` on
+every run by the M-mixin correspondence (recorded answers of those five functions). -/
+
+namespace FeedVerif.Mixin
+
+/-- **With sanitization on, every HTML-typed value of a field that may carry dangerous markup is what the sanitizer returned** (C03): the
+stored value is `repair(sanitize_html(type, …))` — there is no path around the sanitizer for these elements. -/
+theorem dangerous_fields_sanitized (o : Ops) (c : Core) (el out0 ty : Str) (hon : o.sanitizeOn = true)
+    (hty : finalType o c el out0 = some ty) (hhtml : htmlTypes.contains (mapContentType ty) = true)
+    (hd : canContainDangerous.contains el = true) :
+    ∃ pre, (contentOutput o c el out0).2 = o.fix (o.sanitize ty pre) := by
+  unfold finalType contentOutput at hty
+  unfold contentOutput
+  simp only at hty ⊢
+  rw [hty]
+  simp only [Option.getD_some, hhtml, hon, hd, Bool.and_self, Bool.true_and, ↓reduceIte]
+  exact ⟨_, rfl⟩
+
+/-- TABLE FACT (regenerated): every field the documentation lists as sanitized is in `can_contain_dangerous_markup` -/
+theorem documented_sanitized_fields_covered :
+    [S "title", S "summary", S "content", S "subtitle", S "rights", S "info", S "description", S "copyright", S "tagline"].all
+      (fun k => canContainDangerous.contains k && canContainRelativeUris.contains k) = true := by decide +kernel
+
+/-- non-vacuity: an RSS title that looks like HTML is guessed to be text/html and goes through the sanitizer (here a stub that drops everything) -/
+example : (contentOutput { base := ⟨fun _ r => r, fun u => u, fun _ r => r⟩, join := fun _ u => u, fix := id, loose := false, looksHtml := fun _ => true, sanitize := fun _ _ => S "CLEAN" }
+    { version := S "rss20", cp := some ⟨S "text/plain", none, "", false⟩ } (S "title") (S "<b>x</b>")) = (some (S "text/html"), S "CLEAN") := by decide +kernel
+
+end FeedVerif.Mixin
